@@ -7,6 +7,45 @@ ROOT = os.path.dirname(os.path.dirname(os.path.abspath(__file__)))
 
 # pid -> (technique, level text, level_note)
 CHECKS = {
+    "C02": ("online monitor on the real linear sweep (checking wrapper per yielded instruction + sys.monitoring step budget) + reference-model comparison on generated valid code and all shipped methods",
+            "Valid generated code items (all opcodes incl. 0xFE/0xFF with any register byte, payloads, padding) must be recovered exactly (offsets, lengths, raw bytes, DCode lookups, DEX.disassemble); on random/mutated/crafted buffers every yielded instruction must lie inside the code and round-trip, only InvalidInstruction may be raised, and the sweep must finish within a calibrated step budget; every shipped method is compared with an independent sweep.",
+            "trusts vf/model/dalvik.py, vf/model/dexr.py; budget = 100x linear envelope measured on valid code"),
+    "C04": ("reference-model monitor: generated static values / annotations with every legal value_arg width at sign boundaries -> EncodedValue API and decompiled initialiser text",
+            "Every integral type x boundary value x every legal width, chars, booleans, null, string/type/field/method/enum references, nested arrays and annotations.",
+            "float/double not in the statement; printed initialiser compared for integral/char/boolean fields"),
+    "C08": ("reference-model monitor: determineException / get_tries on generated code items and all shipped methods vs the try table decoded by an independent reader",
+            "Generated code items with 0-4 try items (typed, catch-all, shared handler lists, odd instruction counts => padding) and all shipped methods with tries.",
+            "compared as a multiset of ranges (determineException groups by handler offset)"),
+    "C10": ("invariant monitor over real MethodAnalysis basic blocks (contiguity, coverage, instruction slices, required leaders, terminators only last) on generated CFGs and all shipped methods",
+            "Oracle from an independent CFG builder over the raw code units; extra splits allowed.",
+            "payload area after the code is don't-care for leaders"),
+    "C11": ("reference-model monitor: successors/predecessors of every real basic block vs the targets computed from the raw code units (sets), generated CFGs + all shipped methods",
+            "Includes branches to offset 0, duplicate switch targets, branches whose both sides coincide, shared payloads.",
+            "blocks in the payload area and switches without a well-formed payload are don't-care"),
+    "C12": ("reference-model monitor: exception_analysis of every real basic block vs try-range overlap computed from the raw try items, generated CFGs + all shipped methods",
+            "Try ranges starting/ending at, before and after leaders, adjacent, with shared handlers; geometric relation (try contains block / block contains try / try ends inside block) in the mechanism.",
+            "a block overlapping several try ranges (impossible when every try start is a leader) is counted, not judged"),
+    "C13": ("reference-model monitor: xref_to/xref_from/class xrefs/call graph of real Analysis vs the generator's site table, incl. identity of external stubs",
+            "Generated programs with every invoke kind and /range form on internal, external and array-class callees, repeated at several offsets, single and two-DEX analyses.",
+            "two known findings (array-class callees) are keyed by mechanism in known_findings.json"),
+    "C14": ("reference-model monitor: FieldAnalysis read/write lists, method-side lists and uniqueness of FieldAnalysis per defined field vs the generator's site table",
+            "Fields of the same class, other classes and classes in another DEX; duplicates are attributed to the known mechanism only when the count equals 1 + #other accessing classes.",
+            "two known findings (xrefs stored on the accessing class) keyed by mechanism; same-class pool must be clean"),
+    "C15": ("reference-model monitor: StringAnalysis xrefs and new-instance/const-class lists (class and method side) vs the generator's site table",
+            "const-string and /jumbo with shared values, new-instance/const-class on internal, external, array and primitive-array types.",
+            "self-class sites and const-class on [LFoo; are don't-care"),
+    "C16": ("metamorphic monitor: canonical analysis dump of every split (set partitions into 2-4 DEX files) x add order vs the single-DEX dump",
+            "Every difference must be explained item by item, otherwise VIOLATION.",
+            "FieldAnalysis objects of one field are merged in the dump (C14's finding)"),
+    "C17": ("history monitor: after every step of a random set_name/reload/query history all item names and const-string operands are compared with a dictionary model",
+            "Histories up to 30 steps biased toward items sharing a name string.",
+            "three known findings (string-index hook) keyed by mechanism; any divergence without name-string sharing is a VIOLATION"),
+    "C35": ("sys.monitoring step budget around the real parsers (DEX, AXMLPrinter, ARSCParser, APK) on mutated/crafted/truncated inputs; mechanism = innermost running function when the budget ran out",
+            "Thousands of hostile inputs per parser per run derived from generated DEX files and every small shipped DEX/AXML/ARSC/APK; budget = 100x the step envelope calibrated on the valid seeds in the same run.",
+            "C-level loops are invisible to the counter (watchdog => inconclusive); mild super-linearity can pass"),
+    "C40": ("invariant monitor: block boundaries / special_ins keys are instruction offsets; get_special_ins(idx) IS the object at the encoded payload offset and the switch successors come from that same payload (aligned, misaligned, shared payloads)",
+            "Generated methods incl. misaligned payloads and shared payloads + all shipped methods.",
+            "an encoded offset that is not an instruction start or not a payload of the right kind is invalid code: don't care"),
     "C01": ("reference-model monitor: real dex.get_instruction vs bit-sliced Dalvik decoder; first code unit exhaustive (65536 values), boundary/random remaining units, in-pool index resolution",
             "Every opcode x every high byte with boundary and random operand units is decoded by the real code and compared (length, get_raw round trip, mnemonic, registers, sign-extended literals, high16 shifts, branch offsets, unsigned pool indices, resolved pool items); unused opcodes and truncated buffers must raise InvalidInstruction.",
             "trusts vf/model/dalvik.py (table transcribed from the bytecode spec; all 233 mnemonics agree with androguard's names, disagreement would be reported)"),
